@@ -250,6 +250,7 @@ class World:
         self.next_msg_id = 1
         self.nsess = 0
         self.generation = 0
+        self.lm = None  # logical folder mtimes (replay mode only)
         random.seed(seed)
 
     # -- lifecycle ---------------------------------------------------------------
@@ -389,7 +390,11 @@ class World:
         """Feed raw bytes as one frame (no tag handling); used for DONE."""
         s = self.sessions[name]
         self.feed(s, data)
-        await asyncio.sleep(settle)
+        # let the session task consume the frame (no virtual time passes)
+        for _ in range(50):
+            await asyncio.sleep(0)
+        if settle:
+            await asyncio.sleep(settle)
         return s.take()
 
     async def done(self, name, tag, settle=0.05):
@@ -454,6 +459,8 @@ class World:
         path = self.folder_path(mb)
         seq = path / ".mh_sequences"
         known = self.known_mtime(mb)
+        if adv and getattr(self, "lm", None) is not None:
+            self.lm[mb] = self.lm.get(mb, 1) + 1
         if adv:
             cur = max(int(os.path.getmtime(path)),
                       int(os.path.getmtime(seq)) if seq.exists() else 0, known)
